@@ -1,12 +1,134 @@
 (* C06 — lists.List and lists.Ring behave exactly like container/list and
-   container/ring. Statements only; proofs are in Lists/ListProofs.v and
-   Lists/RingProofs.v. *)
-From Typ Require Import Lib.Base Lists.Heap Lists.ListModel Lists.ListProofs.
+   container/ring.
 
-(* Remove with an element that does not belong to l (removed, foreign, never inserted)
-   returns its value and leaves the whole heap unchanged. *)
-Theorem C06_remove_not_owner : forall l e s li,
-  rd e_list s e = Ok li -> li <> Some l ->
-  exists v, rd e_val s e = Ok v /\ list_Remove l e s = Ok (v, s).
-Proof. exact Remove_not_owner. Qed.
-Print Assumptions C06_remove_not_owner.
+   A theorem cannot mention the standard library; what is proved here is that
+   the pointer-level model of the fork (Lists/ListModel.v, transcribed from
+   /repo/lists/list.go) refines the sequence semantics container/list documents
+   (Lists/ListSpec.v), for every operation history and every choice of element
+   handles (live, removed, foreign, never inserted, nil). Equality with the
+   standard library itself is the lock-step comparison of the harness.
+
+   Statements only; proofs are in Lists/ListProofs.v.
+
+   "Covered" histories ([spec_run ops = (_, _, _, true)]): every list index
+   names a list created earlier in the history, and Init is only applied to an
+   empty list. (Init of a non-empty list leaves its former elements with
+   e.list == l, in container/list exactly as in the fork; the sequence
+   semantics does not describe that, the lock-step comparison covers it.) *)
+From Typ Require Import Lib.Base Lists.Heap Lists.ListModel Lists.ListSpec Lists.ListProofs.
+
+(* Refinement: on every covered history the model returns exactly the values
+   of the sequence semantics (element handles, removed values, lengths, nil
+   dereference panics), builds the same handle table, and ends in a heap that
+   represents ([Rep], Lists/ListSpec.v) the final abstract state. *)
+Theorem C06_list_refines_spec : forall ops os a h,
+  spec_run ops = (os, a, h, true) ->
+  exists s, run ops = (os, RState s h) /\ Rep s a.
+Proof. exact list_refines_spec. Qed.
+Print Assumptions C06_list_refines_spec.
+
+(* Well-formedness after every covered history, spelled out: every initialised
+   list is a sentinel -> xs -> sentinel chain linked both ways with xs free of
+   repetitions, len = |xs|, Element.list = l exactly for the members of xs (so
+   different lists are disjoint); a zero-value list has nil sentinel links and
+   owns nothing; removed and never-inserted elements have nil links. *)
+Theorem C06_list_wf : forall ops os a h,
+  spec_run ops = (os, a, h, true) ->
+  let s := st (snd (run ops)) in
+  (forall l r xs, nth_error (a_lists a) l = Some (r, Some xs) ->
+     nth_error (lsts s) l = Some (LRec r (Z.of_nat (length xs))) /\
+     chain (nx s) (pv s) r xs r /\ NoDup xs /\ ~ In r xs /\ (forall e, ow s e = Some l <-> In e xs)) /\
+  (forall l r, nth_error (a_lists a) l = Some (r, None) ->
+     nth_error (lsts s) l = Some (LRec r 0) /\ nx s r = None /\ pv s r = None /\ forall e, ow s e <> Some l) /\
+  (forall e, ow s e = None -> ~ is_root a e -> nx s e = None /\ pv s e = None).
+Proof. exact (fun ops os a h E => Rep_wf _ _ (proj1 (list_wf ops os a h E))). Qed.
+Print Assumptions C06_list_wf.
+
+(* Len, the forward traversal by Front/Next and the backward traversal by
+   Back/Prev of every list are the abstract sequence, its length and its reverse. *)
+Theorem C06_list_traversals : forall ops os a h l,
+  spec_run ops = (os, a, h, true) -> l < length (a_lists a) ->
+  let s := st (snd (run ops)) in
+  list_Len s l = Ok (Z.of_nat (length (a_seq a l))) /\
+  walk_fwd s l = Ok (a_seq a l) /\ walk_bwd s l = Ok (rev (a_seq a l)).
+Proof. exact list_traversals. Qed.
+Print Assumptions C06_list_traversals.
+
+(* Neighbours of every handle (live, removed, foreign, never inserted). *)
+Theorem C06_list_neighbours : forall ops os a h e,
+  spec_run ops = (os, a, h, true) -> In e h ->
+  let s := st (snd (run ops)) in
+  elem_Next s (Some e) = Ok (spec_next a e) /\ elem_Prev s (Some e) = Ok (spec_prev a e).
+Proof. exact list_neighbours. Qed.
+Print Assumptions C06_list_neighbours.
+
+(* An element that does not belong to l (Element.list != l: removed, never
+   inserted, or an element of another list) handed to Remove, InsertBefore,
+   InsertAfter, MoveToFront, MoveToBack, MoveBefore, MoveAfter (as e or as
+   mark): the call writes nothing at all, for every heap. *)
+Theorem C06_foreign_handle_noop : forall s l e,
+  e < size s -> ow s e <> Some l ->
+  list_Remove l (Some e) s = Ok (vl s e, s) /\
+  (forall v, list_InsertBefore l v (Some e) s = Ok (None, s)) /\
+  (forall v, list_InsertAfter l v (Some e) s = Ok (None, s)) /\
+  list_MoveToFront l (Some e) s = Ok s /\
+  list_MoveToBack l (Some e) s = Ok s /\
+  (forall m, list_MoveBefore l (Some e) m s = Ok s) /\
+  (forall m, list_MoveAfter l (Some e) m s = Ok s) /\
+  (forall x, x < size s -> list_MoveBefore l (Some x) (Some e) s = Ok s) /\
+  (forall x, x < size s -> list_MoveAfter l (Some x) (Some e) s = Ok s).
+Proof. exact foreign_handle_noop. Qed.
+Print Assumptions C06_foreign_handle_noop.
+
+(* ... and on a represented heap "Element.list != l" is exactly "not in l's sequence". *)
+Theorem C06_not_member : forall s a l r o e,
+  Rep s a -> nth_error (a_lists a) l = Some (r, o) -> ~ In e (a_seq a l) -> ow s e <> Some l.
+Proof. exact not_member_ow. Qed.
+Print Assumptions C06_not_member.
+
+(* PushBackList (also of a list onto itself, o = l): the new contents are the
+   old contents followed by fresh cells carrying the old values of o, in
+   order; no other list changes. *)
+Theorem C06_pushbacklist : forall s a l o,
+  Rep s a -> l < length (a_lists a) -> o < length (a_lists a) ->
+  exists s' a', list_PushBackList l o s = Ok s' /\ Rep s' a' /\
+    a_seq a' l = a_seq a l ++ seq (fresh a) (length (a_seq a o)) /\
+    map (a_val a') (a_seq a' l) = map (a_val a) (a_seq a l) ++ map (a_val a) (a_seq a o) /\
+    (forall l', l' <> l -> a_seq a' l' = a_seq a l').
+Proof. exact pushbacklist_values. Qed.
+Print Assumptions C06_pushbacklist.
+
+(* A call panics only with a nil element argument, with a nil dereference, and changes nothing. *)
+Theorem C06_list_panics : forall ops os a h i op k,
+  spec_run ops = (os, a, h, true) ->
+  nth_error ops i = Some op -> nth_error (fst (run ops)) i = Some (OPanic k) ->
+  k = NilDeref /\ exists a1 h1, nil_arg op h1 = true /\ spec_exec op a1 h1 = (OPanic NilDeref, a1, h1).
+Proof. exact list_panics_run. Qed.
+Print Assumptions C06_list_panics.
+
+(* The sequence operations of the specification mean what their names say. *)
+Theorem C06_spec_surgery : forall m e pre post,
+  ~ In m pre ->
+  ins_after m e (pre ++ m :: post) = pre ++ m :: e :: post /\
+  ins_before m e (pre ++ m :: post) = pre ++ e :: m :: post /\
+  (~ In m post -> rem m (pre ++ m :: post) = pre ++ post) /\
+  succ_in m (pre ++ m :: post) = head post.
+Proof.
+  exact (fun m e pre post N => conj (ins_after_split m e pre post N)
+          (conj (ins_before_split m e pre post N)
+                (conj (fun N2 => rem_split m pre post N N2) (succ_in_split m pre post N)))).
+Qed.
+Print Assumptions C06_spec_surgery.
+
+(* Non-vacuity: a covered history with a zero-value list, a foreign handle, a
+   removed handle, a never-inserted Element, a nil handle and a self
+   PushBackList; model and specification agree on it (evaluated). *)
+Example C06_example :
+  let ops := [LNew; LNewInit; LPushBack 0 10; LPushBack 0 11; LPushFront 1 12; LElem 13;
+              LRemove 0 0; LRemove 0 0; LInsertAfter 0 14 2; LMoveBefore 0 1 3; LMoveToBack 1 9;
+              LPushBackList 0 0; LInsertBefore 0 15 1; LMoveToFront 0 4; LPushFrontList 1 0; LNext 1]%Z in
+  (let '(_, _, _, ok) := spec_run ops in ok) = true /\
+  fst (run ops) = (let '(os, _, _, _) := spec_run ops in os) /\
+  walk_fwd (st (snd (run ops))) 0 = Ok [4; 1; 5] /\
+  nth 10 (fst (run ops)) OUnit = OPanic NilDeref.
+Proof. vm_compute. repeat split. Qed.
